@@ -339,16 +339,24 @@ def check_swapped_args(ctx, rep, rule, callee_pred):
                     if kw.arg:
                         bound[kw.arg] = kw.value
                 bad = None
+
+                def root_name(a):
+                    """x / obj.x / obj.x[i, :] / x[mask] -> x"""
+                    while isinstance(a, ast.Subscript):
+                        a = a.value
+                    return a.id if isinstance(a, ast.Name) else (a.attr if isinstance(a, ast.Attribute) else None)
                 for p, a in bound.items():
-                    nm = a.id if isinstance(a, ast.Name) else (a.attr if isinstance(a, ast.Attribute) else None)
+                    nm = root_name(a)
                     if nm is None or nm == p or nm.lstrip("_") == p.lstrip("_"):
                         continue
                     if nm in params or nm.lstrip("_") in params:
                         other = nm if nm in params else nm.lstrip("_")
                         oa = bound.get(other)
-                        onm = oa.id if isinstance(oa, ast.Name) else (oa.attr if isinstance(oa, ast.Attribute) else None)
+                        onm = root_name(oa) if oa is not None else None
                         if oa is None or onm is None or (onm != other and onm.lstrip("_") != other):
                             bad = (p, nm, other)
+                        elif norm(oa) == norm(a):
+                            bad = (p, nm, other)      # the same expression is passed for both parameters
                 desc = f"{ev.func.local}:{ev.line} {g.local}({', '.join(norm(a)[:14] for a in call.args)[:70]})"
                 if bad:
                     rep.bad(rule, desc)
